@@ -559,3 +559,271 @@ theorem validate_unused_eq (g : Grammar) (sh : Shell) (v : Valid) (h : validate 
       rw [he] at h; cases h
 
 end Complgen.Check
+
+/-! ### the `used` marks of the specialisations -/
+namespace Complgen.Check
+open Complgen
+
+def markUsed (R : List String) (m : AList UserSpec) : AList UserSpec :=
+  m.map fun p => if R.contains p.1 then (p.1, { p.2 with used := true }) else p
+
+theorem markUsed_nil (m : AList UserSpec) : markUsed [] m = m := by
+  unfold markUsed; simp
+
+theorem markUsed_markUsed (A B : List String) (m : AList UserSpec) :
+    markUsed B (markUsed A m) = markUsed (A ++ B) m := by
+  unfold markUsed
+  rw [List.map_map]
+  apply List.map_congr_left
+  intro p _
+  simp only [Function.comp_def]
+  by_cases ha : p.1 ∈ A <;> by_cases hb : p.1 ∈ B <;> simp [ha, hb]
+
+theorem markUsed_congr (A B : List String) (m : AList UserSpec) (h : ∀ x, x ∈ A ↔ x ∈ B) :
+    markUsed A m = markUsed B m := by
+  unfold markUsed
+  apply List.map_congr_left
+  intro p _
+  have : A.contains p.1 = B.contains p.1 := by
+    cases ha : A.contains p.1 <;> cases hb : B.contains p.1 <;> simp_all
+  rw [this]
+
+theorem markUsed_absent (n : String) (m : AList UserSpec) (h : m.get? n = none) : markUsed [n] m = m := by
+  unfold markUsed
+  have hk : ∀ p ∈ m, p.1 ≠ n := by
+    unfold AList.get? at h
+    simp at h
+    intro p hp
+    exact h p.1 p.2 hp
+  conv => rhs; rw [← List.map_id m]
+  apply List.map_congr_left
+  intro p hp
+  have := hk p hp
+  simp [this]
+
+theorem markUsed_single (n : String) (m : AList UserSpec) :
+    (m.map fun p => if p.1 == n then (p.1, { p.2 with used := true }) else p) = markUsed [n] m := by
+  unfold markUsed
+  apply List.map_congr_left
+  intro p _
+  simp
+
+mutual
+theorem specialize_specs (sh : Shell) (fbs : AList String) (defined : List String) :
+    ∀ (e : Expr) (b : Book), NoDD e = true →
+      (specialize sh fbs defined e b).2.specs = markUsed (Spec.names e) b.specs
+  | .term .., b, _ => by simp [specialize, Spec.names, markUsed_nil]
+  | .cmd .., b, _ => by simp [specialize, Spec.names, markUsed_nil]
+  | .dd c d s, b, h => by simp [NoDD] at h
+  | .nonterm n l s, b, _ => by
+    unfold specialize
+    simp only [Spec.names]
+    cases hsp : b.specs.get? n with
+    | some sp =>
+      simp only [hsp]
+      exact markUsed_single n b.specs
+    | none =>
+      simp only [hsp]
+      rw [markUsed_absent n b.specs hsp]
+      split
+      · rfl
+      · rename_i c compadd b' hp
+        split at hp
+        · cases hp
+        · split at hp
+          · cases hp; rfl
+          · split at hp
+            · cases hp; rfl
+            · cases hp
+  | .sub c l s, b, h => by
+    have := specialize_specs sh fbs defined c b (by simpa [NoDD] using h)
+    simpa [specialize, Spec.names] using this
+  | .opt c s, b, h => by
+    have := specialize_specs sh fbs defined c b (by simpa [NoDD] using h)
+    simpa [specialize, Spec.names] using this
+  | .many1 c s, b, h => by
+    have := specialize_specs sh fbs defined c b (by simpa [NoDD] using h)
+    simpa [specialize, Spec.names] using this
+  | .seq cs s, b, h => by
+    have := specializeL_specs sh fbs defined cs b (by simpa [NoDD] using h)
+    simpa [specialize, Spec.names] using this
+  | .alt cs s, b, h => by
+    have := specializeL_specs sh fbs defined cs b (by simpa [NoDD] using h)
+    simpa [specialize, Spec.names] using this
+  | .fb cs s, b, h => by
+    have := specializeL_specs sh fbs defined cs b (by simpa [NoDD] using h)
+    simpa [specialize, Spec.names] using this
+theorem specializeL_specs (sh : Shell) (fbs : AList String) (defined : List String) :
+    ∀ (es : ExprL) (b : Book), NoDDL es = true →
+      (specializeL sh fbs defined es b).2.specs = markUsed (Spec.namesL es) b.specs
+  | .nil, b, _ => by simp [specializeL, Spec.namesL, markUsed_nil]
+  | .cons e es, b, h => by
+    simp only [NoDDL, Bool.and_eq_true] at h
+    have h1 := specialize_specs sh fbs defined e b h.1
+    have h2 := specializeL_specs sh fbs defined es (specialize sh fbs defined e b).2 h.2
+    simp only [specializeL, Spec.namesL]
+    rw [h2, h1, markUsed_markUsed]
+end
+
+theorem specFold_specs (sh : Shell) (fbs : AList String) (defined : List String) :
+    ∀ (l : List (String × Span × Expr)) (acc : AList (Span × Expr) × Book),
+    (∀ x ∈ l, NoDD x.2.2 = true) →
+    (l.foldl (specStep sh fbs defined) acc).2.specs = markUsed (l.flatMap fun x => Spec.names x.2.2) acc.2.specs
+  | [], acc, _ => by simp [markUsed_nil]
+  | x :: rest, acc, h => by
+    have hx := h x List.mem_cons_self
+    have ih := specFold_specs sh fbs defined rest (specStep sh fbs defined acc x)
+      (fun y hy => h y (List.mem_cons_of_mem _ hy))
+    simp only [List.foldl_cons, List.flatMap_cons]
+    rw [ih]
+    unfold specStep
+    simp only
+    rw [specialize_specs sh fbs defined x.2.2 acc.2 hx, markUsed_markUsed]
+
+end Complgen.Check
+
+namespace Complgen.Check
+open Complgen
+
+theorem finishValidate_unusedSpecs (g : Grammar) (sh : Shell) (command : String) (defs0 : AList (Span × Expr))
+    (specs : AList UserSpec) (fbs : AList String) (v : Valid)
+    (h : finishValidate g sh command defs0 specs fbs = .ok v) :
+    v.unusedSpecs =
+      (markUsed ((defs0.flatMap fun x => Spec.names x.2.2) ++ Spec.names (topExpr g)) specs).filterMap
+        fun p => if p.2.used then none else some (p.1, p.2.span) := by
+  unfold finishValidate at h
+  simp only at h
+  generalize hD : (defs0.map fun x => (x.1, x.2.1, distribute x.2.2)) = defsD at h
+  have hnodd : ∀ x ∈ defsD, NoDD x.2.2 = true := by
+    intro x hx; rw [← hD] at hx
+    obtain ⟨y, _, rfl⟩ := List.mem_map.mp hx
+    exact distribute_noDD _
+  have hnames : (defsD.flatMap fun x => Spec.names x.2.2) = defs0.flatMap fun x => Spec.names x.2.2 := by
+    rw [← hD, List.flatMap_map]
+    simp [distribute_names]
+  have hf1 := specFold_specs sh fbs (defsD.map (·.1)) defsD ([], ⟨specs, defsD.map fun x => (x.1, x.2.1)⟩) hnodd
+  generalize hr1 : defsD.foldl (specStep sh fbs (defsD.map (·.1))) ([], ⟨specs, defsD.map fun x => (x.1, x.2.1)⟩) = r1 at h hf1
+  have hu2 := specialize_specs sh fbs (defsD.map (·.1)) (distribute (topExpr g)) r1.2 (distribute_noDD _)
+  generalize hr2 : specialize sh fbs (defsD.map (·.1)) (distribute (topExpr g)) r1.2 = r2 at h hu2
+  cases hro : resolutionOrder r1.1 with
+  | error spans => rw [hro] at h; cases h
+  | ok order =>
+    rw [hro] at h
+    simp only at h
+    generalize hr3 : order.foldl resStep (r1.1, r2.2.unused) = r3 at h
+    cases hsp : spaces r3.1 stackFuel r2.1 [] false with
+    | overflow => rw [hsp] at h; cases h
+    | bad l r t => rw [hsp] at h; cases h
+    | fine =>
+      rw [hsp] at h
+      simp only [Outcome.ok.injEq] at h
+      subst h
+      simp only
+      rw [hu2, hf1, markUsed_markUsed, hnames, distribute_names]
+
+theorem markUsed_mem_unused (R : List String) (m : AList UserSpec) (hm : ∀ p ∈ m, p.2.used = false) (n : String) :
+    n ∈ ((markUsed R m).filterMap fun p => if p.2.used then none else some (p.1, p.2.span)).map (·.1) ↔
+    n ∈ m.map (·.1) ∧ n ∉ R := by
+  unfold markUsed
+  simp only [List.mem_map, List.mem_filterMap]
+  constructor
+  · rintro ⟨q, ⟨p', ⟨p, hp, rfl⟩, hq⟩, rfl⟩
+    by_cases hr : p.1 ∈ R
+    · simp [hr] at hq
+    · simp only [List.contains_eq_mem, hr, decide_false, Bool.false_eq_true, if_false, hm p hp] at hq
+      simp only [Option.some.injEq] at hq
+      subst hq
+      exact ⟨⟨p, hp, rfl⟩, hr⟩
+  · rintro ⟨⟨p, hp, rfl⟩, hr⟩
+    refine ⟨(p.1, p.2.span), ⟨p, ⟨p, hp, ?_⟩, ?_⟩, rfl⟩
+    · simp [hr]
+    · simp [hm p hp]
+
+theorem mem_specDefs_iff (g : Grammar) (n : String) (s : Span) (shn : String) (ss : Span) (e : Expr) :
+    (n, s, shn, ss, e) ∈ specDefs g ↔ Stmt.defn n s (some (shn, ss)) e ∈ g := by
+  constructor
+  · unfold specDefs
+    rw [List.mem_filterMap]
+    rintro ⟨st, hst, h⟩
+    cases st with
+    | call _ _ _ => simp at h
+    | defn n' s' shl e' =>
+      cases shl with
+      | none => simp at h
+      | some p =>
+        obtain ⟨a, b⟩ := p
+        simp only [Option.some.injEq, Prod.mk.injEq] at h
+        obtain ⟨rfl, rfl, rfl, rfl, rfl⟩ := h
+        exact hst
+  · exact mem_specDefs g n s shn ss e
+
+/-- **The specialisations the model warns about as unused are exactly `Spec.unusedSpecNames`.** -/
+theorem validate_unusedSpecs_eq (g : Grammar) (sh : Shell) (v : Valid) (h : validate g sh = .ok v) (n : String) :
+    n ∈ v.unusedSpecs.map (·.1) ↔ n ∈ Spec.unusedSpecNames sh g := by
+  unfold validate at h
+  cases hcmd : commandOf g with
+  | err c s => rw [hcmd] at h; cases h
+  | crash s => rw [hcmd] at h; cases h
+  | ok command =>
+    rw [hcmd] at h
+    simp only at h
+    by_cases hnd : ((plainDefs g).map (·.1)).Nodup
+    · rw [collectPlain_spec (plainDefs g) [] (fun _ _ => rfl) hnd] at h
+      simp only [List.nil_append] at h
+      cases hgs : getSpecializations g sh with
+      | err c s => rw [hgs] at h; cases h
+      | crash s => rw [hgs] at h; cases h
+      | ok r =>
+        obtain ⟨specs, fbs⟩ := r
+        rw [hgs] at h
+        simp only at h
+        obtain ⟨hspecs, hc, _⟩ := getSpecializations_ok_inv g sh specs fbs hgs
+        rw [finishValidate_unusedSpecs g sh command _ specs fbs v h]
+        rw [markUsed_congr _ (Spec.referred g) specs (erased_iff_referred g hc)]
+        have hfalse : ∀ p ∈ specs, p.2.used = false := by
+          intro p hp
+          rw [hspecs] at hp
+          unfold specList at hp
+          obtain ⟨x, _, rfl⟩ := List.mem_map.mp hp
+          rfl
+        rw [markUsed_mem_unused (Spec.referred g) specs hfalse n]
+        rw [hspecs]
+        unfold specList Spec.unusedSpecNames
+        rw [List.mem_eraseDups, List.mem_filterMap]
+        simp only [List.mem_map, List.mem_filter]
+        constructor
+        · rintro ⟨⟨p, ⟨x, ⟨hx, hft⟩, rfl⟩, rfl⟩, hr⟩
+          obtain ⟨m, s, shn, ss, e⟩ := x
+          refine ⟨_, (mem_specDefs_iff g m s shn ss e).mp hx, ?_⟩
+          have hs : shn = sh.name := (ofName_iff _ _).mp ((forTarget_iff _ _).mp hft)
+          have hr' : (Spec.referred g).contains m = false := by
+            cases hcn : (Spec.referred g).contains m with
+            | false => rfl
+            | true => exact absurd (List.contains_iff_mem.mp hcn) hr
+          have hr2 : ¬ m ∈ Spec.referred g := hr
+          simp [hs, hr', hr2, toSpec]
+        · rintro ⟨st, hst, hsome⟩
+          cases st with
+          | call _ _ _ => simp at hsome
+          | defn m s shl e =>
+            cases shl with
+            | none => simp at hsome
+            | some p =>
+              obtain ⟨shn, ss⟩ := p
+              simp only at hsome
+              split at hsome
+              · rename_i hcond
+                simp only [Option.some.injEq] at hsome
+                subst hsome
+                simp only [Bool.and_eq_true, beq_iff_eq, Bool.not_eq_eq_eq_not, Bool.not_true] at hcond
+                obtain ⟨hs, hr⟩ := hcond
+                refine ⟨⟨_, ⟨(m, s, shn, ss, e), ⟨(mem_specDefs_iff g m s shn ss e).mpr hst, ?_⟩, rfl⟩, rfl⟩, ?_⟩
+                · exact (forTarget_iff _ _).mpr ((ofName_iff _ _).mpr hs)
+                · intro hmem
+                  have : (Spec.referred g).contains m = true := List.contains_iff_mem.mpr hmem
+                  rw [this] at hr; cases hr
+              · cases hsome
+    · obtain ⟨spans, he⟩ := collectPlain_dup (plainDefs g) [] (.inr hnd)
+      rw [he] at h; cases h
+
+end Complgen.Check
